@@ -125,7 +125,7 @@ PLAN = {
         "units": [H1P + "__init__", HP + "__init__", "hypercorn.asyncio.worker_context:WorkerContext.mark_request", "hypercorn.trio.worker_context:WorkerContext.mark_request",
                   H1P + "stream_send", H1P + "_create_stream", HP + "_handle_events", HP + "_create_stream"],
         "trusted_base": LIB_H11 + LIB_H2 + LIB_RT,
-        "assumptions": COMMON_ASSUME + ["enforcement of h11_max_incomplete_size, h2_max_concurrent_streams and h2_max_header_list_size themselves is h11's / h2's: the obligations are that hypercorn hands the configured values over", "the max_requests jitter computation in worker_serve is not under contract yet"],
+        "assumptions": COMMON_ASSUME + ["enforcement of h11_max_incomplete_size, h2_max_concurrent_streams and h2_max_header_list_size themselves is h11's / h2's: the obligations are that hypercorn hands the configured values over"],
         "explanation": "configured limits reach the libraries (constructor postconditions), connection: close exactly when keep_alive_max_requests is reached (h11), GOAWAY when exceeded (h2), requests counted once, mark_request arithmetic on both workers",
         "level_text": "Integer postconditions on the counters and constructor data-flow postconditions, proved for all values of the limits.",
         "level_note": "Trusted: pyvc encoder; M_h11/M_h2; the limits' enforcement inside h11/h2.",
@@ -197,3 +197,35 @@ PLAN["C07"] = {
     "level_text": "Postconditions with a ghost clock, a monitor invariant and call-order clauses proved for every path (all transport failures, all event values); the protocol-side idle reporting is part of the H11/H2 protocol contracts.",
     "level_note": "Trusted: pyvc encoder, runtime/transport models, M_h11/M_h2. Findings F7a (error responses leave the stream attached) and F7d (nothing stops the keep-alive timer before the connection's task group is joined) are demonstrated natively. Liveness not expressed.",
 }
+
+AL, TL = "hypercorn.asyncio.lifespan:Lifespan.", "hypercorn.trio.lifespan:Lifespan."
+LIFESPAN_UNITS = [l + m for l in (AL, TL) for m in ("__init__", "asgi_send", "wait_for_startup", "wait_for_shutdown", "handle_lifespan")]
+SERVE_UNITS = ["hypercorn.asyncio.run:worker_serve", "hypercorn.trio.run:worker_serve"]
+LIB_SERVE = ["assumed contracts for listening sockets, asyncio.start_server / Server (wait_closed waits for the accepted connections: CPython 3.12), asyncio.gather, trio listeners, nursery scopes with deadlines, random.randint, platform.system() != 'Windows' (pyvc/models_serve.py)",
+             "exception groups: split()/subgroup() answered from per-type-set flags 'has a match' / 'has something else' (pyvc/models_rt.py)"]
+SERVE_ASSUME = ["QUIC sockets are absent (Sockets.quic_sockets == ()); the signal-handler installation branch of the asyncio worker_serve (shutdown_trigger is None) is outside the contract",
+                "children of the serving task groups do not fail on their own (their failures are obligations of their own units)",
+                "'nothing is accepted before startup' is decided as: every call that makes a socket listen / accept (socket.listen, trio listeners, serve_listeners, asyncio.start_server) is made after wait_for_startup() returned normally",
+                "the application's lifespan task runs concurrently; what it does to the Lifespan object is the rely of that class"]
+
+PLAN["C14"] = {
+    "units": LIFESPAN_UNITS + SERVE_UNITS + [ATS + "run", TTS + "run"],
+    "trusted_base": LIB_IO + LIB_SERVE + LIB_RT,
+    "assumptions": COMMON_ASSUME + RT_ASSUME + SERVE_ASSUME,
+    "explanation": "asgi_send maps completion messages to the matching event and failures to LifespanFailureError, unknown types raise; wait_for_startup/shutdown ask the application exactly once (not at all when lifespan is unsupported), return only once the phase's event is set, and time out no earlier than the configured timeout (ghost clock); handle_lifespan releases both events on every exit, never swallows a reported failure (alone or inside an exception group) and withdraws support on any other error; worker_serve makes sockets listen / accept only after wait_for_startup returned normally (obligation attached to every such call), calls wait_for_shutdown exactly once and only after shutdown was announced; TCPServer.run hands each connection a copy of the lifespan state",
+    "level_text": "Postconditions (normal and exceptional) of the five Lifespan methods of both workers, call-site obligations and loop invariants in both worker_serve functions, proved for all messages, exception outcomes of the application, socket lists of any length and timeouts.",
+    "level_note": "Trusted: pyvc encoder, runtime / serve models. Not expressed: that the asyncio worker notices a startup failure whose task has not finished yet when wait_for_startup returns (lifespan_task.done() race, observed natively by a seeding agent, not claimed either way).",
+}
+PLAN["C15"] = {
+    "units": SERVE_UNITS + [ATS + "_idle_timeout", TTS + "_idle_timeout", H1P + "_maybe_recycle", HP + "_handle_events", AW + "WorkerContext.mark_request", TW + "WorkerContext.mark_request",
+                            AL + "wait_for_shutdown", TL + "wait_for_shutdown"],
+    "trusted_base": LIB_IO + LIB_SERVE + LIB_H11 + LIB_H2 + LIB_RT,
+    "assumptions": COMMON_ASSUME + RT_ASSUME + SERVE_ASSUME + ["time is a ghost clock advancing at suspensions; scheduling slack is 0"],
+    "explanation": "worker_serve: shutdown is announced (terminated set, a never-cleared event) before lifespan.shutdown is sent, which happens exactly once; from the announcement the server tasks get at most graceful_timeout (ghost clock; finding F15 on asyncio); idle connections close at once when terminated is set (C07.timer.* with the terminated event); HTTP/1 connections are not recycled once terminated (C06.recycle.only-when-done); HTTP/2 refuses new streams and lowers MAX_CONCURRENT_STREAMS when terminating; max_requests sets terminate",
+    "level_text": "Call-site obligations, ghost-clock postconditions and protocol postconditions proved for all socket lists, timeouts and exception-group outcomes.",
+    "level_note": "Trusted: pyvc encoder, runtime / serve models, M_h11/M_h2. Finding F15 (asyncio: Server.wait_closed() waits for open connections before the grace period starts) demonstrated natively. 'A request that completes within the grace period is delivered in full' is not expressed as such (it follows from nothing being cancelled before the deadline in the model).",
+}
+
+PLAN["C18"]["units"] = PLAN["C18"]["units"] + SERVE_UNITS + [AW + "WorkerContext.__init__", TW + "WorkerContext.__init__"]
+PLAN["C18"]["trusted_base"] = PLAN["C18"]["trusted_base"] + LIB_SERVE
+PLAN["C18"]["explanation"] += "; worker_serve gives the worker a request budget of max_requests + randint(0, max_requests_jitter) (C18.jitter: between max_requests and max_requests + max_requests_jitter, None iff max_requests is None)"
